@@ -93,6 +93,43 @@ def h_encode(kind):
                                       q.proposals[0].spi == spi, len(q.proposals[0].transforms) == 2,
                                       q.proposals[0].transforms[0].keylen == t1.keylen, q.proposals[0].transforms[0].id == 12,
                                       q.proposals[0].transforms[1].type == 4, q.proposals[0].transforms[1].id == t2.id)
+    elif kind == 'SA3':
+        # three proposals of which the first and the last are EQUAL as proposals (same protocol and transforms, other SPI), the middle one with a
+        # transform repeated before its last position: 'more' markers must depend on the position only (2,2,0 / 3,..,0)
+        T = m.Transform
+        s1, s3 = S('spi1', 4), S('spi3', 4)
+        kl = I('keylen', 1, 65535)
+        mk = lambda: [T(T.Type.ENCR, T.EncrId.ENCR_AES_CBC, kl), T(T.Type.INTEG, T.IntegId.AUTH_HMAC_SHA2_256_128)]
+        esn = T(T.Type.ESN, T.EsnId.NO_ESN)
+        p1, p3 = m.Proposal(1, 3, s1, mk()), m.Proposal(3, 3, s3, mk())
+        p2 = m.Proposal(2, 2, b'', [esn, T(T.Type.INTEG, T.IntegId.AUTH_HMAC_SHA1_96), T(T.Type.ESN, T.EsnId.NO_ESN)])
+        p = m.PayloadSA([p1, p2, p3]); t = 33
+        tr_e = lambda more: bytes([more]) + b'\x00\x00\x0c' + b'\x01\x00\x00\x0c' + b'\x80\x0e' + _be(kl, 2)
+        tr_i = lambda more, i: bytes([more]) + b'\x00\x00\x08' + b'\x03\x00' + i.to_bytes(2, 'big')
+        tr_n = lambda more: bytes([more]) + b'\x00\x00\x08' + b'\x05\x00\x00\x00'
+        b1 = b'\x01\x03\x04\x02' + s1 + tr_e(3) + tr_i(0, 12)
+        b2 = b'\x02\x02\x00\x03' + tr_n(3) + tr_i(3, 2) + tr_n(0)
+        b3 = b'\x03\x03\x04\x02' + s3 + tr_e(3) + tr_i(0, 12)
+        body = core.SymBytes([])
+        for more, b in ((2, b1), (2, b2), (0, b3)):
+            body = body + bytes([more, 0]) + (len(b) + 4).to_bytes(2, 'big') + b
+        same = lambda q: core.sym_and(len(q.proposals) == 3, q.proposals[0].spi == s1, q.proposals[2].spi == s3, len(q.proposals[1].transforms) == 3,
+                                      q.proposals[0].transforms[0].keylen == kl, q.proposals[2].num == 3, q.proposals[1].protocol_id == 2)
+    elif kind == 'TS6':
+        from symx import shims
+        import ipaddress
+        pr, sp, ep = I('proto', 0, 255), I('sp', 0, 65535), I('ep', 0, 65535)
+        sa, ea = I('sa', 0, (1 << 128) - 1, width=136), I('ea', 0, (1 << 128) - 1, width=136)
+        ts6 = m.TrafficSelector(8, pr, sp, ep, shims._mk_addr(ipaddress.IPv6Address, sa), shims._mk_addr(ipaddress.IPv6Address, ea))
+        ts4 = m.TrafficSelector(7, 0, 0, 65535, ipaddress.ip_address('10.0.0.0'), ipaddress.ip_address('10.0.0.255'))
+        p = m.PayloadTSr([ts6, ts4]); t = 45
+        body = b'\x02\0\0\0' + b'\x08' + _be(pr, 1) + b'\x00\x28' + _be(sp, 2) + _be(ep, 2) + _be(sa, 16) + _be(ea, 16) + \
+            b'\x07\x00\x00\x10\x00\x00\xff\xff' + bytes([10, 0, 0, 0, 10, 0, 0, 255])
+        same = lambda q: core.sym_and(len(q.traffic_selectors) == 2, q.traffic_selectors[0] == ts6, q.traffic_selectors[1] == ts4)
+    elif kind == 'DELETE3':
+        pr, s1, s2, s3 = I('proto', 0, 3), S('spi1', 4), S('spi2', 4), S('spi3', 4)
+        p = m.PayloadDELETE(pr, [s1, s2, s3]); body = _be(pr, 1) + b'\x04\x00\x03' + s1 + s2 + s3; t = 42
+        same = lambda q: core.sym_and(q.protocol_id == pr, len(q.spis) == 3 and q.spis[0] == s1, len(q.spis) == 3 and q.spis[2] == s3)
     msg = m.Message(spi_i, spi_r, major, minor, exch, resp, hv, init, mid, [p], [])
     data = msg.to_bytes()
     flags = core.sym_ite_int(resp, 0x20, 0) + core.sym_ite_int(hv, 0x10, 0) + core.sym_ite_int(init, 0x08, 0)
@@ -106,6 +143,32 @@ def h_encode(kind):
     if len(back.payloads) == 1:
         ok &= eng.prove(back.payloads[0].type == t and same(back.payloads[0]), f'{kind}: payload content does not round-trip')
     return ['encoded', kind, bool(ok)]
+
+
+def _ref_chain(eng, d, n):
+    """reference walk of the payload chain of an n-byte datagram (the path condition of an accepting path fixes type and length fields)"""
+    from symx import core
+    off = 28
+    if n < 28:
+        return 'shorter than the header'
+    t = d[16]
+    for _ in range(n):
+        if bool(t == 0):
+            break
+        if off + 4 > n:
+            return f'generic payload header at {off} runs past the end'
+        nxt = d[off]
+        length = (d[off + 2] << 8) | d[off + 3]
+        if bool(length < 4):
+            return f'payload length below 4 at {off}'
+        if bool(length > n - off):
+            return f'payload at {off} runs past the end'
+        L = eng.concretize(length, 4, n - off) if not isinstance(length, int) else length
+        if bool(t == 46):
+            nxt = 0       # the Encrypted payload is the last one; its Next Payload names the first inner payload
+        off += L
+        t = nxt
+    return 'exact' if off == n else f'chain ends at {off} of {n}'
 
 
 def h_idem(n, first_type):
@@ -126,6 +189,10 @@ def h_idem(n, first_type):
     except m.IkeSaError as ex:
         # datagrams whose chain does not end exactly at the end of the data must be among the rejected ones
         return ['rejected']
+    # independent walk of the generic payload chain (RFC 7296 3.2): it must end exactly at the end of the datagram
+    verdict = _ref_chain(eng, d, n)
+    if verdict != 'exact':
+        return {'class': ['accepted'], 'violation': f'a datagram was accepted although its payload chain does not end exactly at the end of the data ({verdict})'}
     try:
         b2 = msg.to_bytes()
         m2 = m.Message.parse(b2)
@@ -140,7 +207,7 @@ def h_idem(n, first_type):
 
 def build_instances(tier):
     inst = []
-    for k in ('KE', 'NOTIFY', 'NOTIFY0', 'DELETE', 'NONCE', 'ID', 'AUTH', 'VENDOR', 'TS', 'SA'):
+    for k in ('KE', 'NOTIFY', 'NOTIFY0', 'DELETE', 'DELETE3', 'NONCE', 'ID', 'AUTH', 'VENDOR', 'TS', 'TS6', 'SA', 'SA3'):
         inst.append(Instance(f'encode {k}', h_encode, (k,), must_reach=[('encoded', lambda o: o[0] == 'encoded')]))
     known = sorted(int(k) for k in MODS['message'].Message.type_2_payload)
     for n in {'quick': (28, 31), 'thorough': (28, 29, 30, 31)}[tier]:
@@ -151,67 +218,14 @@ def build_instances(tier):
     return inst
 
 
-def replay_file(path):
+def _load_native():
     global MODS
     MODS = common.load_repo(shim=False)
-    m = MODS['message']
-    v = json.load(open(path))
-    name, inp = v['instance'], v['inputs']
-    if name.startswith('idempotence'):
-        d = bytes.fromhex(inp['d'])
-        try:
-            msg = m.Message.parse(d)
-        except m.IkeSaError:
-            return 0
-        try:
-            b2 = bytes(msg.to_bytes()); b3 = bytes(m.Message.parse(b2).to_bytes())
-        except Exception as ex:
-            print('native:', type(ex).__name__, ex); return 1
-        print('native: b2 == b3:', b2 == b3)
-        hdr_ok = b2[0:16] == d[0:16] and b2[17:19] == d[17:19] and b2[20:24] == d[20:24] and b2[19] == d[19] & 0x38
-        return 0 if (b2 == b3 and hdr_ok) else 1
-    # encoder differential on the concrete witness (independent encoder below is written against RFC 7296 figures)
-    import struct
-    kind = name.split()[1]
-    g = lambda k, d=0: inp.get(k, d)
-    hx = lambda k: bytes.fromhex(inp[k])
-    if kind == 'KE':
-        p = m.PayloadKE(g('group'), hx('ke')); t = 34; body = struct.pack('>HH', g('group'), 0) + hx('ke')
-    elif kind in ('NOTIFY', 'NOTIFY0'):
-        spi = hx('spi') if kind == 'NOTIFY' else b''
-        p = m.PayloadNOTIFY(g('proto'), g('ntype'), spi, hx('data')); t = 41
-        body = struct.pack('>BBH', g('proto'), len(spi), g('ntype')) + spi + hx('data')
-    elif kind == 'DELETE':
-        p = m.PayloadDELETE(g('proto'), [hx('spi1'), hx('spi2')]); t = 42; body = struct.pack('>BBH', g('proto'), 4, 2) + hx('spi1') + hx('spi2')
-    elif kind == 'NONCE':
-        p = m.PayloadNONCE(hx('nonce')); t = 40; body = hx('nonce')
-    elif kind == 'ID':
-        p = m.PayloadIDi(g('idtype'), hx('id')); t = 35; body = bytes([g('idtype'), 0, 0, 0]) + hx('id')
-    elif kind == 'AUTH':
-        p = m.PayloadAUTH(g('method'), hx('auth')); t = 39; body = bytes([g('method'), 0, 0, 0]) + hx('auth')
-    elif kind == 'VENDOR':
-        p = m.PayloadVENDOR(hx('vid')); t = 43; body = hx('vid')
-    elif kind == 'TS':
-        import ipaddress
-        ts = m.TrafficSelector(7, g('proto'), g('sp'), g('ep'), ipaddress.IPv4Address(g('sa')), ipaddress.IPv4Address(g('ea')))
-        p = m.PayloadTSi([ts]); t = 44
-        body = bytes([1, 0, 0, 0, 7, g('proto'), 0, 16]) + struct.pack('>HHLL', g('sp'), g('ep'), g('sa'), g('ea'))
-    else:
-        T = m.Transform
-        p = m.PayloadSA([m.Proposal(g('num'), g('pid'), hx('spi'), [T(1, 12, g('keylen')), T(4, g('dh'))])]); t = 33
-        prop = bytes([g('num'), g('pid'), 4, 2]) + hx('spi') + bytes([3, 0, 0, 12, 1, 0, 0, 12, 0x80, 14]) + struct.pack('>H', g('keylen')) + \
-            bytes([0, 0, 0, 8, 4, 0]) + struct.pack('>H', g('dh'))
-        body = bytes([0, 0]) + struct.pack('>H', len(prop) + 4) + prop
-    msg = m.Message(hx('spi_i'), hx('spi_r'), g('major'), g('minor'), g('exch'), g('resp'), g('hv'), g('init'), g('mid'), [p], [])
-    data = bytes(msg.to_bytes())
-    flags = (0x20 if g('resp') else 0) | (0x10 if g('hv') else 0) | (0x08 if g('init') else 0)
-    ref = hx('spi_i') + hx('spi_r') + bytes([t, g('major') << 4 | g('minor'), g('exch'), flags]) + struct.pack('>LL', g('mid'), 32 + len(body)) + \
-        bytes([0, 0]) + struct.pack('>H', len(body) + 4) + body
-    print('native: to_bytes == reference:', data == ref)
-    if data != ref:
-        return 1
-    back = m.Message.parse(data)
-    return 0 if bytes(back.to_bytes()) == data and back.message_id == g('mid') else 1
+
+
+def replay_file(path):
+    """concrete re-run of the same harness function (reference encoder / chain walker included) against the unshimmed modules"""
+    return common.generic_replay_file(path, lambda: build_instances('thorough') + build_instances('quick'), _load_native)
 
 
 def main(tier, seed):
